@@ -176,6 +176,8 @@ def run(ctx, R, tier):
     good, msg = chk_loop_region_ordered(F)
     R.check(good, 'B.C03.loop-region', 'stores', 'Transport.loop_region: %s' % msg, detail=msg)
     fade_continuity(F, R)
+    from .c06 import accumulators
+    accumulators(F, R, rule='B.C03.accumulate')
     # a fade-driven step completes when its tween completes: the fade and start-time bookkeeping runs on every path of process
     from .c06 import ungated
     ungated(F, R, rule='B.C03.ungated')
